@@ -70,7 +70,7 @@ def all_harnesses():
                     name = f"c08_{key}{pn}_c{cap}_{sname(s)}"
                     core_list = [sname(x) for x in schedules(cap, False)]
                     idx = core_list.index(sname(s)) if sname(s) in core_set else -1
-                    core = key != "mag2" and cap == 2 and idx >= 0 and ((key in ("delay", "resamp", "skip", "rtlsdr") and idx in (1, 2, 4)) or
+                    core = (key == "rtlsdr" and cap == 3 and idx in (1, 3)) or key != "mag2" and cap == 2 and idx >= 0 and ((key in ("delay", "resamp", "skip", "rtlsdr") and idx in (1, 2, 4)) or
                                                       (key == "xorconst" and idx in (0, 1, 2)) or (ei == 0 and idx == 2))
                     if key == "resamp" and extra not in (", 2, 1", ", 3, 2", ", 1, 2"):
                         core = False
